@@ -14,7 +14,7 @@ def run_config(chk, tier, cfgname):
                         "survival of stored upgrades over later cycles (history property)"]
     for t in ("weak_upgrade", "upgrade", "weak_is_dropped", "trace_weak", "forward_barrier_weak",
               "backward_barrier_weak", "weak_is_dead"):
-        typestate.apply(chk, t + "-table", t, aspects=("safety", "weak", "once"))
+        typestate.apply(chk, t + "-table", t, aspects=("safety", "weak", "once", "overmark"))
     typestate.apply(chk, "sweep-weak-rows", "sweep_one", only=lambda r: r.pre.get("cursor") in ("WW", "W"), aspects=("weak", "once"))
     typestate.report_automaton(chk, ["S5", "S6", "S1w"])
     prog.edges()
